@@ -16,6 +16,7 @@ import CssVerif.Driver.LinkOps
 import CssVerif.Driver.UrlOps
 import CssVerif.Driver.EscOps
 import CssVerif.Driver.ValueOps
+import CssVerif.Driver.OutOps
 open CssVerif CssVerif.Proto
 
 def showTok (t : Tok) : String :=
@@ -71,6 +72,7 @@ def step (line : String) : String :=
   | ["norm", t] => EscOps.opNorm t
   | ["vparse", w] => ValueOps.opVparse w
   | ["vser", p, w] => ValueOps.opVser p w
+  | "out" :: args => OutOps.opOut args
   | ["sel", ns, hex] => SelOps.opSel ns hex
   | ["num", fx, om, hex] => NumOps.opNum fx om hex
   | ["numval", hex] => NumOps.opVal hex
